@@ -108,6 +108,8 @@ class Program:
             return r.choice(["<<<", "<<< ", "b<<<"] if lex != "HEREDOC_START_DQ" else ["<<<"]) + q + lbl + q + r.choice(["\n", "\r\n"])
         if lex == "HEREDOC_END":
             return self.labels.pop()
+        if lex == "HDLABEL_NAME":          # a name spelled like the label of the heredoc it stands in
+            return self.labels[-1] if self.labels else "EOT"
         if lex == "HDTEXT":
             lbl = self.labels[-1] if self.labels else "EOT"
             # (a line that starts with the label followed by a name byte does not end the body, in any version)
